@@ -5,6 +5,7 @@ mod fw;
 mod model;
 mod pool;
 mod props;
+mod stack;
 
 use fw::*;
 
